@@ -80,8 +80,10 @@ func c10Corpus(thorough bool) []c10Req {
 		}
 	}
 	inv := invalidCorpus()
-	for _, i := range []int{1, 3, 19} {
-		out = append(out, c10Req{Name: inv[i].Name, Body: J(inv[i].Req)})
+	for i, r := range inv {
+		if i == 1 || i == 3 || i == 19 || strings.Contains(r.Rule, "unknown-ordering") || strings.Contains(r.Rule, "unknown-reference-type") || strings.Contains(r.Rule, "ratio-above-one") {
+			out = append(out, c10Req{Name: r.Name, Body: J(r.Req)})
+		}
 	}
 	return out
 }
@@ -119,6 +121,10 @@ func c10Pairs(corpus []c10Req, thorough bool) []c10Pair {
 			case sameK && (j-i == 8 || j-i == 24):
 				add(i, j)
 			case mixed && (i%8 == 0 || j%8 == 0) && (i+j)%3 == 0:
+				add(i, j)
+			case mixed && (strings.Contains(corpus[i].Name, "/omission/") || strings.Contains(corpus[i].Name, "/reversal/")) && (strings.Contains(corpus[j].Name, "ordering") || strings.Contains(corpus[j].Name, "ratio")):
+				// a valid request that leaves ordering/min/max to their defaults next to a request rejected for that option
+				add(j, i)
 				add(i, j)
 			}
 		}
